@@ -126,6 +126,18 @@ func c04Corrupt(r *sim.Run, x []byte, flat []*ref.Box) string {
 		where = "random"
 	}
 	kind := ""
+	if len(flat) > 0 && t.Chance(60) {
+		// turn a box header into the 64-bit size form with an enormous size (values around 2^63 and 2^64)
+		b := flat[t.Draw(len(flat))]
+		if b.Size >= 16 && int(b.Start)+16 <= len(x) {
+			o := int(b.Start)
+			binary.BigEndian.PutUint32(x[o:], 1)
+			v := []uint64{1<<63 - 1, 1 << 63, 1<<63 + uint64(t.Draw(16)), 1<<64 - 1, 1<<63 - uint64(b.Start) - uint64(t.Draw(3)), 1<<62 + uint64(t.Draw(1<<20)), uint64(b.Size) + 8, 1 << 32}[t.Draw(8)]
+			binary.BigEndian.PutUint64(x[o+8:], v)
+			r.Fault("stored-largesize-huge")
+			return fmt.Sprintf("largesize=%#x@%d(%s)", v, o, b.Type)
+		}
+	}
 	put32 := func(v uint32) {
 		var b [4]byte
 		binary.BigEndian.PutUint32(b[:], v)
@@ -198,7 +210,7 @@ func c04Run(r *sim.Run) {
 	if t.Chance(500) {
 		if units, err := work.ParseUnits(x); err == nil {
 			repair := t.Bool()
-			ops := work.Transport(r, &units, 1+t.Draw(3), t.Chance(700), []string{"drop", "dup", "swap", "move", "splice", "drop"})
+			ops := work.Transport(r, &units, 1+t.Draw(3), t.Chance(700), []string{"drop", "dup", "swap", "move", "splice", "drop", "shrink-table", "shrink-table", "largesize"})
 			x = work.Serialize(units, repair)
 			desc = append(desc, fmt.Sprintf("transport(repair=%v)%v", repair, ops))
 			if !repair {
@@ -408,8 +420,8 @@ func init() {
 	sim.Register(&sim.Prop{
 		ID:    "C04",
 		Level: "exploration",
-		Rule: "each run: a corpus file (<=512 kB) or a packager stream suffers 1..n compounding faults: unit transport at any depth (drop/duplicate/swap/move/splice, enclosing sizes repaired or left stale), 0-3 stored-byte faults placed by an independent header walk on size, type, version/flags, count and early fields " +
-			"(bit flip, u32 := ffffffff/7fffffff/80000000/0/small/+small, zeroed range, misdirected range), truncation, EIO at read k, seek error, short/zero/data+EOF delivery; 1-2 consumers (a single box taken from any depth decoded on its own by DecodeBox/DecodeBoxSR with optional local size damage, DecodeFile reader path, lazy-mdat mode on SimDisk, DecodeFileSR, DecodeBox/DecodeBoxSR loop) x flags {none, ISM, start-on-moof, both}; " +
+		Rule: "each run: a corpus file (<=512 kB) or a packager stream suffers 1..n compounding faults: unit transport at any depth (drop/duplicate/swap/move/splice/shrink a table box consistently/64-bit header form, enclosing sizes repaired or left stale), 0-3 stored-byte faults placed by an independent header walk on size, type, version/flags, count and early fields " +
+			"(bit flip, u32 := ffffffff/7fffffff/80000000/0/small/+small, header rewritten to 64-bit size form with sizes around 2^62/2^63/2^64, zeroed range, misdirected range), truncation, EIO at read k, seek error, short/zero/data+EOF delivery; 1-2 consumers (a single box taken from any depth decoded on its own by DecodeBox/DecodeBoxSR with optional local size damage, DecodeFile reader path, lazy-mdat mode on SimDisk, DecodeFileSR, DecodeBox/DecodeBoxSR loop) x flags {none, ISM, start-on-moof, both}; " +
 			"on success Info at '', all:1, all:2, Size, Encode and EncodeSW in both fragment encode modes. Every library call is a step under three oracles: no panic, allocated bytes <= 160 MiB + 768/byte, wall <= 2 s + 200 us/byte (confirmed 3x; hangs by the coordinator watchdog in fresh processes). " +
 			"non-trivial = at least one fault fired; distinct = hash of (base, transport ops, byte faults, delivery, consumers, accept/reject outcomes).",
 		Assumptions: []string{"budget constants are ours (the property fixes none): chosen >=10x above the maxima measured on the unchanged tree (reported as measured_maxima) ", "Go cannot inject allocation failure: memory is measured (runtime/metrics heap allocs), not faulted",
@@ -420,7 +432,7 @@ func init() {
 		Setup:       c04Setup,
 		Run:         c04Run,
 		FatalIsViol: true,
-		WantFaults:  []string{"unit-dropped", "unit-duplicated", "unit-reordered", "unit-moved", "unit-spliced", "sizes-left-unrepaired", "stored-bitflip", "stored-u32=ffffffff", "stored-zeroed-range", "stored-misdirected-range", "disk-truncated", "read-eio", "seek-eio", "read-short", "read-zero"},
+		WantFaults:  []string{"unit-dropped", "unit-duplicated", "unit-reordered", "unit-moved", "unit-spliced", "unit-table-shrunk", "unit-largesize-header", "sizes-left-unrepaired", "stored-bitflip", "stored-u32=ffffffff", "stored-zeroed-range", "stored-misdirected-range", "stored-largesize-huge", "disk-truncated", "read-eio", "seek-eio", "read-short", "read-zero"},
 		WantProbes:  []string{"decode-accepted-faulty-input", "decode-rejected", "single-box-accepted"},
 	})
 }
